@@ -570,8 +570,8 @@ def rule_R6(ctx):
         if term[0] == "agg":
             seen[term[3]] = (sorted(desc), [T.pp(x) for x in term[4]])
     want = {"Bad": (["ttl==0"], ["ttl_observed"]),
-            "Distance": (["!ttl==0", "dist<=30"], ["ttl_observed", "guess_distance(ttl_observed)"]),
-            "Value": (["!dist<=30", "!ttl==0"], ["ttl_observed"])}
+            "Distance": (["dist<=30", "ttl!=0"], ["ttl_observed", "guess_distance(ttl_observed)"]),
+            "Value": (["dist>30", "ttl!=0"], ["ttl_observed"])}
     for k, (wc, wa) in want.items():
         got = seen.get(k)
         okk = got is not None and sorted(got[0]) == sorted(wc) and [x.split("::")[-1] for x in got[1]] == wa
